@@ -169,6 +169,83 @@ def rule_tables(ctx: Ctx) -> RuleResult:
     return rr
 
 
+def rule_depth_masks(ctx: Ctx) -> RuleResult:
+    """AttrSpec.colors reports the depth the *stored colours* need: each depth is recognised by the pair of flags
+    its foreground / background setters store (_FG_x | _BG_x).  Only the 88-colour palette is told from the
+    256-colour one by the mode flag.  The masks are folded to integers and compared with the folded flag pairs."""
+    from ..consteval import fold_expr
+
+    p = ctx.p
+    rr = RuleResult("TAB", "C18.7", "AttrSpec.colors tests, for each depth, exactly the flags the colour setters store for that depth", floor=4)
+    m = p.modules[COMMON]
+    fi = p.func(f"{COMMON}.AttrSpec.colors")
+    want = {
+        256: fold_module_name(p, m, "_FG_HIGH_COLOR") | fold_module_name(p, m, "_BG_HIGH_COLOR"),
+        2**24: fold_module_name(p, m, "_FG_TRUE_COLOR") | fold_module_name(p, m, "_BG_TRUE_COLOR"),
+        16: fold_module_name(p, m, "_FG_BASIC_COLOR") | fold_module_name(p, m, "_BG_BASIC_COLOR"),
+        88: fold_module_name(p, m, "_HIGH_88_COLOR"),
+    }
+    seen = set()
+    for n in fi.own_nodes():
+        if isinstance(n, ast.If) and len(n.body) == 1 and isinstance(n.body[0], ast.Return) and isinstance(n.test, ast.BinOp) and isinstance(n.test.op, ast.BitAnd):
+            depth = fold_expr(p, m, n.body[0].value)
+            mask = fold_expr(p, m, n.test.right)
+            seen.add(depth)
+            rr.inst(f"depth {depth}", True, {"depth": depth, "mask": hex(mask), "expected": hex(want.get(depth, 0))})
+            if depth not in want or mask != want[depth]:
+                rr.add(finding("TAB", fi, n, f"colors returns {depth} when the value has any of the bits {hex(mask)} (`{norm(n.test.right, 50)}`); the setters mark a {depth}-colour foreground/background with {hex(want.get(depth, 0))}: the depth reported no longer follows the colours actually stored (a specification with default colours reports the depth it was created with)", construct=f"depth {depth} recognised by {norm(n.test.right, 50)}"))
+    missing = set(want) - seen
+    if missing:
+        rr.add(finding("TAB", fi, fi.node, f"colors has no test for the depths {sorted(missing)}", construct=f"depth tests missing {sorted(missing)}"))
+    return rr
+
+
+def rule_high_bounds(ctx: Ctx) -> RuleResult:
+    """'hN' names palette entry N: valid for 0 <= N < number of colours.  The bound of each parser is folded and
+    compared, as an integer interval, with its own palette size (256 / 88)."""
+    from ..consteval import fold_expr
+    from .c11 import _interval
+
+    p = ctx.p
+    rr = RuleResult("TAB", "C18.8", "the hN branch of _parse_color_256 / _parse_color_88 accepts exactly 0 <= N <= colours - 1", floor=2)
+    m = p.modules[COMMON]
+    for q, size in ((f"{COMMON}._parse_color_256", 256), (f"{COMMON}._parse_color_88", 88)):
+        fi = p.func(q)
+        # the test that rejects: `if num < 0 or num > K: return None` in the branch of desc.startswith("h")
+        hb = [n for n in fi.own_nodes() if isinstance(n, ast.If) and isinstance(n.test, ast.Call) and isinstance(n.test.func, ast.Attribute) and n.test.func.attr == "startswith" and n.test.args and isinstance(n.test.args[0], ast.Constant) and n.test.args[0].value == "h"]
+        if not hb:
+            raise AnalysisError(f"{q}: the branch for 'h' descriptions was not found")
+        rej = [n for n in ast.walk(hb[0]) if isinstance(n, ast.If) and n is not hb[0] and any(isinstance(x, ast.Return) and isinstance(x.value, ast.Constant) and x.value.value is None for x in n.body)]
+        if not rej:
+            raise AnalysisError(f"{q}: the range test of the hN branch was not found")
+        lo, hi = None, None
+        for c in ast.walk(rej[0].test):
+            if isinstance(c, ast.Compare) and len(c.ops) == 1:
+                # fold the constant side
+                class _K(ast.NodeTransformer):
+                    pass
+
+                try:
+                    k = fold_expr(p, m, c.comparators[0])
+                except AnalysisError:
+                    continue
+                if not isinstance(k, int):
+                    continue
+                c2 = ast.Compare(left=c.left, ops=c.ops, comparators=[ast.Constant(value=k)])
+                iv = _interval(c2)
+                if iv is None:
+                    continue
+                # the test REJECTS this interval
+                if iv[0] == float("-inf"):
+                    lo = iv[1] + 1
+                elif iv[1] == float("inf"):
+                    hi = iv[0] - 1
+        rr.inst(short(fi), True, {"parser": short(fi), "accepts_h": [lo, hi], "palette_size": size})
+        if (lo, hi) != (0, size - 1):
+            rr.add(finding("TAB", fi, rej[0], f"the hN branch accepts N in [{lo}, {hi}] but the palette has the entries 0..{size - 1}: 'h{size}' is accepted (and stored as a colour number outside the palette) or a valid entry is refused", construct=f"hN range [{lo}, {hi}] for {size} colours"))
+    return rr
+
+
 def run(ctx: Ctx):
     p = ctx.p
     c = p.cls(f"{COMMON}.AttrSpec")
@@ -195,6 +272,8 @@ def run(ctx: Ctx):
             p, "C18.6", COMMON, [f"{COMMON}._true_to_256", f"{COMMON}.AttrSpec.__set_foreground", f"{COMMON}.AttrSpec.__set_background", f"{COMMON}._parse_color_256", f"{COMMON}._parse_color_88", f"{COMMON}._parse_color_true"],
             floor=5, description="results of the colour parsers (None = not recognised) are tested against None before they are used as numbers",
         ),
+        rule_depth_masks(ctx),
+        rule_high_bounds(ctx),
     ]
     return out
 
@@ -203,6 +282,10 @@ from ..mutants import Mut  # noqa: E402
 
 _C = "urwid/display/common.py"
 MUTANTS = [
+    Mut("colors-true-by-mode-flag", "urwid/display/common.py", "AttrSpec.colors", "if self.__value & (_BG_TRUE_COLOR | _FG_TRUE_COLOR):", "if self.__value & _HIGH_TRUE_COLOR:", "TAB|display.common.AttrSpec.colors"),
+    Mut("twin-colors-true-pair-reordered", "urwid/display/common.py", "AttrSpec.colors", "if self.__value & (_BG_TRUE_COLOR | _FG_TRUE_COLOR):", "if self.__value & (_FG_TRUE_COLOR | _BG_TRUE_COLOR):", twin=True),
+    Mut("h256-accepted", "urwid/display/common.py", "_parse_color_256", "if num < 0 or num > 255:", "if num < 0 or num > _GRAY_START_256 + _GRAY_SIZE_256:", "TAB|display.common._parse_color_256"),
+    Mut("twin-h-bound-derived", "urwid/display/common.py", "_parse_color_256", "if num < 0 or num > 255:", "if num < 0 or num >= _GRAY_START_256 + _GRAY_SIZE_256:", twin=True),
     Mut("desc-88-rejects-zero", _C, "_color_desc_88", "if not 0 <= num < 88:", "if not 0 < num < 88:", "SIB|"),
     Mut("desc-256-cube-boundary", _C, "_color_desc_256", "if num < _GRAY_START_256:", "if num <= _GRAY_START_256:", "SIB|"),
     Mut("true-to-256-int-unguarded", _C, "_true_to_256", "    try:\n        c256 = _parse_color_256(\"#\" + \"\".join(format(int(x, 16) // 16, \"x\") for x in (desc[1:3], desc[3:5], desc[5:7])))\n    except ValueError:\n        return None", "    c256 = _parse_color_256(\"#\" + \"\".join(format(int(x, 16) // 16, \"x\") for x in (desc[1:3], desc[3:5], desc[5:7])))", "EXC|"),
